@@ -14,10 +14,19 @@ package l4proxy
 
 import (
 	"bufio"
+	"bytes"
 	"context"
+	"crypto/ecdsa"
+	"crypto/elliptic"
+	"crypto/rand"
+	"crypto/tls"
+	"crypto/x509"
+	"crypto/x509/pkix"
 	"encoding/json"
+	"errors"
 	"fmt"
 	"io"
+	"math/big"
 	"net"
 	"os"
 	"strconv"
@@ -28,6 +37,7 @@ import (
 	"time"
 
 	"github.com/caddyserver/caddy/v2"
+	"github.com/caddyserver/caddy/v2/modules/caddyhttp/reverseproxy"
 	"go.uber.org/zap"
 
 	"github.com/mholt/caddy-l4/layer4"
@@ -60,7 +70,9 @@ type vRelaySc struct {
 	cChunk   int
 	uChunk   int
 	abort    string // "", client, upstream
-	upNet    string // "" = tcp, "unix": transport of the upstream connections
+	upNet    string // "" = tcp, "unix", "tls": transport of the upstream connections
+	ppOut    string // proxy_protocol option of the proxy handler ("" or "v1")
+	idle     time.Duration // the client pauses this long in the middle of its stream
 	seed     uint64
 }
 
@@ -190,6 +202,224 @@ func vPort(a net.Addr) int {
 	return 0
 }
 
+// a throw-away self-signed certificate for the loopback TLS upstreams
+var (
+	vC03TLSOnce sync.Once
+	vC03TLSCfg  *tls.Config
+)
+
+func vC03TLSServerConfig() *tls.Config {
+	vC03TLSOnce.Do(func() {
+		key, err := ecdsa.GenerateKey(elliptic.P256(), rand.Reader)
+		if err != nil {
+			panic(err)
+		}
+		tmpl := &x509.Certificate{SerialNumber: big.NewInt(1), Subject: pkix.Name{CommonName: "verif-c03"},
+			NotBefore: time.Now().Add(-time.Hour), NotAfter: time.Now().Add(24 * time.Hour),
+			KeyUsage: x509.KeyUsageDigitalSignature, ExtKeyUsage: []x509.ExtKeyUsage{x509.ExtKeyUsageServerAuth},
+			IPAddresses: []net.IP{net.ParseIP("127.0.0.1")}, DNSNames: []string{"localhost"}}
+		der, err := x509.CreateCertificate(rand.Reader, tmpl, tmpl, &key.PublicKey, key)
+		if err != nil {
+			panic(err)
+		}
+		vC03TLSCfg = &tls.Config{Certificates: []tls.Certificate{{Certificate: [][]byte{der}, PrivateKey: key}}}
+	})
+	return vC03TLSCfg
+}
+
+// ---- a scripted downstream connection: Read hands out the chunks one by one and returns the last
+// one TOGETHER with the final error (io.EOF or another error), as e.g. a TLS connection does when the
+// peer's last record arrives with its close_notify; Write records what the proxy sends to the client
+type vScriptConn struct {
+	mu       sync.Mutex
+	chunks   [][]byte
+	finalErr error
+	lastWith bool // the last chunk comes with finalErr; otherwise finalErr comes alone afterwards
+	wrote    []byte
+	closed   bool
+	closedCh chan struct{}
+}
+
+func (c *vScriptConn) Read(p []byte) (int, error) {
+	c.mu.Lock()
+	if len(c.chunks) == 0 {
+		c.mu.Unlock()
+		if c.finalErr != io.EOF || c.lastWith {
+			// nothing more will ever come
+		}
+		return 0, c.finalErr
+	}
+	ch := c.chunks[0]
+	n := copy(p, ch)
+	if n < len(ch) {
+		c.chunks[0] = ch[n:]
+		c.mu.Unlock()
+		return n, nil
+	}
+	c.chunks = c.chunks[1:]
+	last := len(c.chunks) == 0
+	c.mu.Unlock()
+	if last && c.lastWith {
+		return n, c.finalErr
+	}
+	return n, nil
+}
+func (c *vScriptConn) Write(p []byte) (int, error) {
+	c.mu.Lock()
+	defer c.mu.Unlock()
+	if c.closed {
+		return 0, net.ErrClosed
+	}
+	c.wrote = append(c.wrote, p...)
+	return len(p), nil
+}
+func (c *vScriptConn) Close() error {
+	c.mu.Lock()
+	defer c.mu.Unlock()
+	if !c.closed {
+		c.closed = true
+		close(c.closedCh)
+	}
+	return nil
+}
+func (c *vScriptConn) LocalAddr() net.Addr              { return &net.TCPAddr{IP: net.IPv4(127, 0, 0, 1), Port: 7} }
+func (c *vScriptConn) RemoteAddr() net.Addr             { return &net.TCPAddr{IP: net.IPv4(127, 0, 0, 1), Port: 40007} }
+func (c *vScriptConn) SetDeadline(time.Time) error      { return nil }
+func (c *vScriptConn) SetReadDeadline(time.Time) error  { return nil }
+func (c *vScriptConn) SetWriteDeadline(time.Time) error { return nil }
+
+// runs Handle over a scripted downstream; reports through out
+func vRunScripted(ctx caddy.Context, out *vOut, rng *vRng, peers int, nchunks int, finalErr error, lastWith bool, pre int) {
+	var chunks [][]byte
+	var stream []byte
+	for i := 0; i < nchunks; i++ {
+		ch := rng.Bytes(1 + rng.Intn(900))
+		chunks = append(chunks, ch)
+		stream = append(stream, ch...)
+	}
+	if pre > len(stream) {
+		pre = len(stream)
+	}
+	desc := map[string]any{"peers": peers, "chunks": nchunks, "client_bytes": len(stream), "prefetched": pre, "final_error": fmt.Sprint(finalErr), "last_chunk_with_error": lastWith}
+	type up struct {
+		ln  net.Listener
+		rec *vRecorder
+		pl  []byte
+	}
+	var ups []*up
+	var addrs []string
+	var wg sync.WaitGroup
+	for i := 0; i < peers; i++ {
+		ln, err := net.Listen("tcp", "127.0.0.1:0")
+		if err != nil {
+			out.Fail("C03:harness:error", err.Error(), desc)
+			return
+		}
+		u := &up{ln: ln, rec: newVRecorder(), pl: vTagPayload(rng, 50+rng.Intn(400), i)}
+		ups = append(ups, u)
+		addrs = append(addrs, ln.Addr().String())
+		wg.Add(1)
+		go func(u *up) {
+			defer wg.Done()
+			_ = u.ln.(*net.TCPListener).SetDeadline(time.Now().Add(3 * time.Second))
+			c, err := u.ln.Accept()
+			if err != nil {
+				close(u.rec.end)
+				return
+			}
+			defer c.Close()
+			go u.rec.run(c)
+			_, _ = c.Write(u.pl)
+			vWaitOr(u.rec.end, 3*time.Second) // finish after the client has
+			_ = c.(*net.TCPConn).CloseWrite()
+			time.Sleep(50 * time.Millisecond)
+		}(u)
+	}
+	defer func() {
+		for _, u := range ups {
+			u.ln.Close()
+		}
+		wg.Wait()
+	}()
+	h := &Handler{Upstreams: UpstreamPool{&Upstream{Dial: addrs}}}
+	if err := vC03Prov(func() error { return h.Provision(ctx) }); err != nil {
+		out.Fail("C03:harness:error", "provision: "+err.Error(), desc)
+		return
+	}
+	defer vC03Prov(h.Cleanup)
+	// the matching buffer holds the first [pre] bytes, the scripted conn the rest
+	rest := stream[pre:]
+	var restChunks [][]byte
+	skip := pre
+	for _, ch := range chunks {
+		if skip >= len(ch) {
+			skip -= len(ch)
+			continue
+		}
+		restChunks = append(restChunks, ch[skip:])
+		skip = 0
+	}
+	_ = rest
+	sc := &vScriptConn{chunks: restChunks, finalErr: finalErr, lastWith: lastWith && len(restChunks) > 0, closedCh: make(chan struct{})}
+	cx := layer4.WrapConnection(sc, append([]byte(nil), stream[:pre]...), zap.NewNop())
+	done := make(chan struct{})
+	go func() { _ = h.Handle(cx, nil); close(done) }()
+	returned := vWaitOr(done, 4*time.Second)
+	if returned {
+		sc.Close()
+	}
+	var upb [][]byte
+	var upeof, closed []bool
+	for _, u := range ups {
+		vWaitOr(u.rec.end, time.Second)
+		b, e := u.rec.snap()
+		upb = append(upb, b)
+		upeof = append(upeof, e)
+		closed = append(closed, returned)
+	}
+	sc.mu.Lock()
+	cli := append([]byte(nil), sc.wrote...)
+	sc.mu.Unlock()
+	if !returned {
+		sc.Close()
+		vWaitOr(done, 2*time.Second)
+	}
+	proj := vProjCli(cli, peers)
+	var upl [][]byte
+	for _, u := range ups {
+		upl = append(upl, u.pl)
+	}
+	kind := "eof"
+	if finalErr != io.EOF {
+		kind = "error"
+	}
+	cls := fmt.Sprintf("scripted/%dpeer/final-%s/with-last-chunk=%v", peers, kind, lastWith)
+	if finalErr == io.EOF {
+		uafter := make([]bool, peers)
+		for i := range uafter {
+			uafter[i] = true
+		}
+		out.Case(fmt.Sprintf("RExact %d %d %s %s false %s chain_udp %s %s %s %s %s %s", peers, pre, cHex(stream), vHexList(upl), vBoolList(uafter),
+			vHexList(upb), vHexList(proj), cBool(returned), vBoolList(upeof), cBool(returned), vBoolList(closed)), cls, lastWith, desc)
+	} else {
+		out.Case(fmt.Sprintf("RAbort %d %s %s %s %s %s %s", peers, cHex(stream), vHexList(upl), vHexList(upb), vHexList(proj), cBool(returned), vBoolList(closed)), cls, lastWith, desc)
+	}
+	for i := range ups {
+		if !bytesEq(upb[i], stream) {
+			out.Fail("C03:relay:upstream-bytes-differ", fmt.Sprintf("upstream %d received %d bytes, the downstream connection delivered %d (the last chunk came together with %v; equal prefix: %v)", i, len(upb[i]), len(stream), finalErr, isPrefix(upb[i], stream)), desc)
+		}
+		if !upeof[i] {
+			out.Fail("C03:halfclose:upstream-eof-missing", fmt.Sprintf("the client's stream ended but upstream %d did not observe end-of-stream", i), desc)
+		}
+		if !bytesEq(proj[i], ups[i].pl) {
+			out.Fail("C03:relay:client-bytes-differ", fmt.Sprintf("the client received %d bytes from upstream %d, which sent %d", len(proj[i]), i, len(ups[i].pl)), desc)
+		}
+	}
+	if !returned {
+		out.Fail("C03:cleanup:handle-never-returned", "the downstream stream ended and every upstream finished, but Handle did not return", desc)
+	}
+}
+
 // caddy.Context is not safe for concurrent provisioning: scenarios provision one at a time
 var vC03ProvMu sync.Mutex
 
@@ -237,6 +467,9 @@ func vRunRelay(ctx caddy.Context, sc vRelaySc) (res vRelayRes) {
 			ln, err = net.Listen("tcp", "127.0.0.1:0")
 			if err == nil {
 				dialAddr = ln.Addr().String()
+				if sc.upNet == "tls" {
+					ln = tls.NewListener(ln, vC03TLSServerConfig())
+				}
 			}
 		}
 		if err != nil {
@@ -256,6 +489,16 @@ func vRunRelay(ctx caddy.Context, sc vRelaySc) (res vRelayRes) {
 			u.conn.Store(c)
 			u.proxyPort = vPort(c.RemoteAddr())
 			close(u.accepted)
+			if tc, ok := c.(*tls.Conn); ok {
+				_ = tc.SetDeadline(time.Now().Add(5 * time.Second))
+				if err := tc.Handshake(); err != nil {
+					u.rec.mu.Lock()
+					close(u.rec.end)
+					u.rec.mu.Unlock()
+					return
+				}
+				_ = tc.SetDeadline(time.Time{})
+			}
 			go u.rec.run(c)
 			urng := vNewRng(int64(sc.seed) + int64(i) + 1)
 			if sc.abort == "upstream" && i == 0 {
@@ -288,7 +531,10 @@ func vRunRelay(ctx caddy.Context, sc vRelaySc) (res vRelayRes) {
 	}()
 
 	// ---- the proxy handler ----
-	h := &Handler{Upstreams: UpstreamPool{&Upstream{Dial: addrs}}}
+	h := &Handler{Upstreams: UpstreamPool{&Upstream{Dial: addrs}}, ProxyProtocol: sc.ppOut}
+	if sc.upNet == "tls" {
+		h.Upstreams[0].TLS = &reverseproxy.TLSConfig{InsecureSkipVerify: true}
+	}
 	if err := vC03Prov(func() error { return h.Provision(ctx) }); err != nil {
 		res.err = "provision: " + err.Error()
 		return
@@ -365,6 +611,11 @@ func vRunRelay(ctx caddy.Context, sc vRelaySc) (res vRelayRes) {
 				}
 				time.Sleep(15 * time.Millisecond)
 			}
+		} else if sc.idle > 0 {
+			// a first segment, a long pause, a second segment
+			_ = vWriteChunks(cc, sc.cPayload, sc.cChunk, rng, len(sc.cPayload)/2)
+			time.Sleep(sc.idle)
+			_ = vWriteChunks(cc, sc.cPayload[len(sc.cPayload)/2:], sc.cChunk, rng, -1)
 		} else {
 			_ = vWriteChunks(cc, sc.cPayload, sc.cChunk, rng, -1)
 		}
@@ -426,6 +677,14 @@ func vRunRelay(ctx caddy.Context, sc vRelaySc) (res vRelayRes) {
 		owned := vOwnedSockets()
 		for _, u := range ups {
 			b, e := u.rec.snap()
+			if sc.ppOut == "v1" {
+				// the upstream first gets the PROXY header describing the client connection; a missing or wrong
+				// header stays in front of the bytes and shows up as a difference
+				hdr := []byte(fmt.Sprintf("PROXY TCP4 127.0.0.1 127.0.0.1 %d %d\r\n", vPort(cc.LocalAddr()), vPort(cc.RemoteAddr())))
+				if bytes.HasPrefix(b, hdr) {
+					b = b[len(hdr):]
+				}
+			}
 			s.up = append(s.up, b)
 			s.upEOF = append(s.upEOF, e)
 			select {
@@ -461,7 +720,7 @@ func vRunRelay(ctx caddy.Context, sc vRelaySc) (res vRelayRes) {
 		}
 	}
 
-	if !vWaitOr(done, vStallT) {
+	if !vWaitOr(done, vStallT+sc.idle) {
 		res.stalled = true
 	}
 	settle()
@@ -555,7 +814,7 @@ func (sc vRelaySc) describe() map[string]any {
 	}
 	return map[string]any{"peers": sc.peers, "client_bytes": len(sc.cPayload), "prefetched": sc.pre, "upstream_bytes": ul,
 		"client_fin_after_eof": sc.cAfter, "upstream_fin_after_eof": sc.uAfter, "wrapper": sc.wrapper,
-		"client_chunk": sc.cChunk, "upstream_chunk": sc.uChunk, "abort": sc.abort, "upstream_network": nonEmpty(sc.upNet, "tcp"), "seed": sc.seed}
+		"client_chunk": sc.cChunk, "upstream_chunk": sc.uChunk, "abort": sc.abort, "upstream_network": nonEmpty(sc.upNet, "tcp"), "proxy_protocol_out": sc.ppOut, "client_idle_ms": sc.idle.Milliseconds(), "seed": sc.seed}
 }
 
 func bytesEq(a, b []byte) bool { return string(a) == string(b) }
@@ -651,6 +910,12 @@ func vRelayCase(out *vOut, sc vRelaySc, r vRelayRes) {
 	cls := fmt.Sprintf("%dpeer/%s/%s/c%s-u%s", sc.peers, nonEmpty(sc.wrapper, "direct"), order, vSizeBucket(len(sc.cPayload)), vSizeBucket(maxU))
 	if sc.upNet != "" {
 		cls = sc.upNet + "/" + cls
+	}
+	if sc.ppOut != "" {
+		cls = "pp-" + sc.ppOut + "/" + cls
+	}
+	if sc.idle > 0 {
+		cls = "late-write/" + cls
 	}
 	proj := vProjCli(s.cli, sc.peers)
 	switch {
@@ -806,6 +1071,19 @@ func TestVerifC03(t *testing.T) {
 		return sc
 	}
 	wrappers := []string{"", "throttle", "proxy_protocol", "tee"}
+	// 0. late writes (first, so that they run alongside everything else): a segment, a long pause, another
+	// segment; with and without proxy_protocol on the proxy handler
+	idles := []time.Duration{4 * time.Second}
+	if vThorough() {
+		idles = append(idles, 12*time.Second)
+	}
+	for _, idle := range idles {
+		for _, pp := range []string{"v1", ""} {
+			sc := mk(1+len(pp)/2, 1500+rng.Intn(500), 0, []int{300 + rng.Intn(300)}, false, true, "", 0, 0, "")
+			sc.ppOut, sc.idle = pp, idle
+			scs = append(scs, sc)
+		}
+	}
 	// 1. every wrapper x every half-close order x 1..3 peers, small payloads both ways
 	for _, w := range wrappers {
 		for peers := 1; peers <= 3; peers++ {
@@ -857,6 +1135,24 @@ func TestVerifC03(t *testing.T) {
 		if i == 1 {
 			sc.pre = 16
 		}
+		scs = append(scs, sc)
+	}
+	// 3d. TLS upstreams (the upstream `tls` option, certificate not verified): 1..2 peers, empty and
+	// non-empty streams in both directions, every half-close order; PROXY header in front of a few
+	for i := 0; i < 9; i++ {
+		order := i % 3 // 0 free, 1 client first (upstreams wait for EOF), 2 upstreams first
+		cl := []int{0, 0, 700, 0, 1, 40000, 900, 0, 300}[i]
+		ul := []int{0, 500, 0, 900, 1, 70000, 800, 0, 300}[i]
+		if order == 1 && i < 6 {
+			cl = 0 // the empty request with the client half-closing first
+		}
+		sc := mk(1+i%2, cl, 0, []int{ul, ul / 2}, order == 2, order == 1, "", []int{0, 100}[i%2], 0, "")
+		sc.upNet = "tls"
+		scs = append(scs, sc)
+	}
+	for i := 0; i < 3; i++ {
+		sc := mk(1+i%2, []int{0, 800, 5000}[i], 0, []int{[]int{600, 0, 3000}[i]}, i == 2, i == 0, "", 0, 0, "")
+		sc.ppOut = "v1"
 		scs = append(scs, sc)
 	}
 	// 4. random scenarios
@@ -921,6 +1217,10 @@ func TestVerifC03(t *testing.T) {
 	out.Stat("relay_scenarios", len(scs))
 	out.Stat("relay_stalled", stalls)
 
+	// scripted downstream connections: the last chunk arrives together with io.EOF / with an error
+	for i, e := range []error{io.EOF, errors.New("verif: connection reset"), io.EOF, io.ErrUnexpectedEOF, io.EOF, io.EOF} {
+		vRunScripted(ctx, out, rng, 1+i%2, []int{1, 2, 3, 1, 4, 2}[i], e, i != 4, []int{0, 0, 10, 5, 0, 2000}[i])
+	}
 	// dialPeers cleanup
 	for _, p := range [][]int{{0}, {1}, {0, 1}, {0, 0, 1}, {0, 1, 0}, {1, 0}, {0, 0}, {0, 0, 0}} {
 		vDialCase(ctx, out, p)
